@@ -213,7 +213,13 @@ def run_check(check, tier, seed, jobs=None):
     if errors:
         sys.stderr.write(f"INFRA: {len(errors)} group(s) crashed; first:\n"
                          f"{errors[0][0]}\n{errors[0][1]}\n")
-        raise InfraError("worker crash")
+        # a crashed group makes the run incomplete (exit 2) - unless other
+        # groups found violations: those are real and are reported (exit 1),
+        # with the crash noted in the evidence
+        if not total.violations:
+            raise InfraError("worker crash")
+        total.notes.add(f"{len(errors)} group(s) crashed and were not "
+                        "explored: " + errors[0][1].strip().splitlines()[-1][:200])
     if len(first) == 2 and first[0] != first[1]:
         raise InfraError("non-deterministic: the same group gave two different "
                          "observations")
@@ -252,7 +258,7 @@ def run_check(check, tier, seed, jobs=None):
         "transitions": total.transitions,
         "traces_validated_against_impl": total.validated + total.conformance,
         "samples": jsonable(spread(total.samples, 8)) or ["(none)"],
-        "exhaustive": True,
+        "exhaustive": not errors,
         "evaluations": total.evals,
         "distinct_nontrivial": total.extra.get("nontrivial", total.states),
         "rule": check.rule + " || non-trivial: " + getattr(
